@@ -22,6 +22,75 @@ def frame_other(vec, n, lo, ln):
     return 'all(implies(not (%s <= i and i < %s + %s), %s._data[i] == old(%s._data[i])) for i in range(%s))' % (lo, lo, ln, vec, vec, n)
 
 
+
+def native_subjac(kind):
+    """Real sub-jacobian object built by the real constructor + light real vectors."""
+    def build(vals, np, om):
+        from pyvc.native_helpers import A, light_vector
+        from openmdao.jacobians import subjac as SJm
+        sv = vals['self']
+        rs, cs = sv['row_slice'], sv['col_slice']
+        r0, r1, c0, c1 = int(rs.start), int(rs.stop), int(cs.start), int(cs.stop)
+        val = A(sv['info']['val'], float)
+        info = {'rows': None, 'cols': None, 'val': val, 'diagonal': False, 'dependent': True}
+        if kind == 'dense':
+            cls, info['shape'] = SJm.DenseSubjac, val.shape
+            r, c = val.shape
+            sizes = dict(r=r, c=c)
+        elif kind == 'coo':
+            r, c = int(sv['nrows']), int(sv['parent_ncols'])
+            cls, info['shape'] = SJm.OMCOOSubjac, (r, c)
+            info['rows'], info['cols'] = A(sv['rows'], int), A(sv['cols'], int)
+            sizes = dict(r=r, c=c, nnz=len(val))
+        else:
+            r = len(val)
+            cls, info['shape'], info['diagonal'] = SJm.DiagonalSubjac, (r, r), True
+            sizes = dict(r=r)
+        obj = cls(('y', 'x'), info, slice(r0, r1), slice(c0, c1), True, np.dtype(float))
+        kw = dict(self=obj, randgen=None)
+        for nm, sz in (('d_inputs', 'ni'), ('d_outputs', 'no'), ('d_residuals', 'nr')):
+            kw[nm] = light_vector(A(vals[nm]['_data'], float))
+            sizes[sz] = len(kw[nm]._data)
+        sizes.update(r0=r0, r1=r1, c0=c0, c1=c1)
+        return kw, sizes
+    return build
+
+
+def sample_subjac(kind, which):
+    def samp(rng):
+        from pyvc.sample import frac
+        r, c = rng.randint(1, 3), rng.randint(1, 3)
+        if kind == 'diag':
+            c = r
+        r0, c0 = rng.randint(0, 2), rng.randint(0, 2)
+        nr = r0 + r + rng.randint(0, 1)
+        nwrt = c0 + c + rng.randint(0, 1)
+        nother = rng.randint(0, 3)
+
+        def arr(n, shape=None):
+            return {'__arr__': [frac(rng) for _ in range(n)], 'shape': shape or [n], 'dtype': 'real'}
+
+        def vec(n):
+            return {'__obj__': 'DefaultVector', 'id': rng.randint(10, 10 ** 6), 'attrs': {'_data': arr(n), '_under_complex_step': False}}
+        attrs = {'_in_view': None, '_out_view': None, '_res_view': None,
+                 'row_slice': {'__slice__': [r0, r0 + r, None]}, 'col_slice': {'__slice__': [c0, c0 + c, None]}}
+        if kind == 'dense':
+            cls, attrs['info'] = 'DenseSubjac', {'__dict__': [['val', arr(r * c, [r, c])]]}
+        elif kind == 'coo':
+            # nnz == ncols with repeated columns is the interesting corner (scatter-add vs fancy +=)
+            nnz = rng.choice([0, 1, 2, c, c, r * c, 5])
+            cls, attrs['info'] = 'OMCOOSubjac', {'__dict__': [['val', arr(nnz)]]}
+            attrs['rows'] = {'__arr__': [rng.randrange(r) for _ in range(nnz)], 'shape': [nnz], 'dtype': 'int'}
+            attrs['cols'] = {'__arr__': [rng.randrange(c) for _ in range(nnz)], 'shape': [nnz], 'dtype': 'int'}
+            attrs['nrows'], attrs['parent_ncols'] = r, c
+        else:
+            cls, attrs['info'] = 'DiagonalSubjac', {'__dict__': [['val', arr(r)]]}
+        return {'self': {'__obj__': cls, 'id': 1, 'attrs': attrs}, 'randgen': None,
+                'd_inputs': vec(nwrt if which == 'input' else nother), 'd_outputs': vec(nwrt if which == 'output' else nother),
+                'd_residuals': vec(nr)}
+    return samp
+
+
 # ---------------------------------------------------------------------------------------------
 # dense sub-jacobian: M[i, j] = val[i, j]
 def dense_self():
@@ -36,14 +105,14 @@ for which, vec, n in (('input', 'd_inputs', 'ni'), ('output', 'd_outputs', 'no')
              ensures=['all(approx(d_residuals._data[r0 + i], old(d_residuals._data[r0 + i]) + Sum(c, lambda j: self.info["val"][i, j] * %s._data[c0 + j])) for i in range(r))' % vec,
                       frame_other('d_residuals', 'nr', 'r0', 'r')],
              modifies=['d_residuals._data', 'self._in_view', 'self._out_view', 'self._res_view'], inline=VEC_INL,
-             name=SJ + '::Subjac._apply_fwd_%s[dense]' % which,
+             name=SJ + '::Subjac._apply_fwd_%s[dense]' % which, native=native_subjac('dense'), sampler=sample_subjac('dense', which),
              canaries=[('forward product uses the transpose', ('self._res_view += val @ self._%s_view' % ('in' if which == 'input' else 'out'), 'self._res_view += val.T @ self._%s_view' % ('in' if which == 'input' else 'out')), 'post')] if which == 'input' else [])
     contract(SJ + '::Subjac._apply_rev_' + which, ['C02', 'C11'], dict(self=dense_self(), randgen=None, **vecs()),
              requires=req,
              ensures=['all(approx(%s._data[c0 + j], old(%s._data[c0 + j]) + Sum(r, lambda i: self.info["val"][i, j] * d_residuals._data[r0 + i])) for j in range(c))' % (vec, vec),
                       frame_other(vec, n, 'c0', 'c')],
              modifies=[vec + '._data', 'self._in_view', 'self._out_view', 'self._res_view'], inline=VEC_INL,
-             name=SJ + '::Subjac._apply_rev_%s[dense]' % which,
+             name=SJ + '::Subjac._apply_rev_%s[dense]' % which, native=native_subjac('dense'), sampler=sample_subjac('dense', which),
              canaries=[('reverse product forgets the transpose', ("val = self.info['val'].T if randgen is None", "val = self.info['val'] if randgen is None"), 'shape')] if which == 'input' else [])
 
 
@@ -63,14 +132,14 @@ for which, vec, n in (('input', 'd_inputs', 'ni'), ('output', 'd_outputs', 'no')
              ensures=['all(approx(d_residuals._data[r0 + i], old(d_residuals._data[r0 + i]) + Sum(nnz, lambda k: ite(self.rows[k] == i, %s._data[c0 + self.cols[k]] * self.info["val"][k], 0))) for i in range(r))' % vec,
                       frame_other('d_residuals', 'nr', 'r0', 'r')],
              modifies=['d_residuals._data', 'self._in_view', 'self._out_view', 'self._res_view'], inline=VEC_INL,
-             name=SJ + '::OMCOOSubjac._apply_fwd_%s' % which,
+             name=SJ + '::OMCOOSubjac._apply_fwd_%s' % which, native=native_subjac('coo'), sampler=sample_subjac('coo', which),
              canaries=[('rows and cols swapped in the forward product', ('bincount(self.rows, self._in_view[self.cols] * val, minlength=self.nrows)', 'bincount(self.cols, self._in_view[self.rows] * val, minlength=self.nrows)'), 'post')] if which == 'input' else [])
     contract(SJ + '::OMCOOSubjac._apply_rev_' + which, ['C02', 'C11'], dict(self=coo_self(), randgen=None, **vecs()),
              requires=req,
              ensures=['all(approx(%s._data[c0 + j], old(%s._data[c0 + j]) + Sum(nnz, lambda k: ite(self.cols[k] == j, d_residuals._data[r0 + self.rows[k]] * self.info["val"][k], 0))) for j in range(c))' % (vec, vec),
                       frame_other(vec, n, 'c0', 'c')],
              modifies=[vec + '._data', 'self._in_view', 'self._out_view', 'self._res_view'], inline=VEC_INL,
-             name=SJ + '::OMCOOSubjac._apply_rev_%s' % which,
+             name=SJ + '::OMCOOSubjac._apply_rev_%s' % which, native=native_subjac('coo'), sampler=sample_subjac('coo', which),
              canaries=[('reverse product scatters by rows', ('bincount(self.cols, self._res_view[self.rows] * val,\n                                  minlength=self.parent_ncols)', 'bincount(self.rows, self._res_view[self.rows] * val,\n                                  minlength=self.parent_ncols)'), 'post')] if which == 'input' else [])
 
 
@@ -88,13 +157,13 @@ for which, vec, n in (('input', 'd_inputs', 'ni'), ('output', 'd_outputs', 'no')
              ensures=['all(approx(d_residuals._data[r0 + i], old(d_residuals._data[r0 + i]) + self.info["val"][i] * %s._data[c0 + i]) for i in range(r))' % vec,
                       frame_other('d_residuals', 'nr', 'r0', 'r')],
              modifies=['d_residuals._data', 'self._in_view', 'self._out_view', 'self._res_view'], inline=VEC_INL,
-             name=SJ + '::DiagonalSubjac._apply_fwd_%s' % which)
+             name=SJ + '::DiagonalSubjac._apply_fwd_%s' % which, native=native_subjac('diag'), sampler=sample_subjac('diag', which))
     contract(SJ + '::DiagonalSubjac._apply_rev_' + which, ['C02', 'C11'], dict(self=diag_self(), randgen=None, **vecs()),
              requires=req,
              ensures=['all(approx(%s._data[c0 + i], old(%s._data[c0 + i]) + self.info["val"][i] * d_residuals._data[r0 + i]) for i in range(r))' % (vec, vec),
                       frame_other(vec, n, 'c0', 'r')],
              modifies=[vec + '._data', 'self._in_view', 'self._out_view', 'self._res_view'], inline=VEC_INL,
-             name=SJ + '::DiagonalSubjac._apply_rev_%s' % which,
+             name=SJ + '::DiagonalSubjac._apply_rev_%s' % which, native=native_subjac('diag'), sampler=sample_subjac('diag', which),
              canaries=[('reverse diagonal product assigns instead of accumulating', ('self._in_view += self._res_view * val', 'self._in_view[:] = self._res_view * val'), 'post')] if which == 'input' else [])
 
 
